@@ -26,7 +26,7 @@ def _compare(r, g):
 
 
 def _loopkind(feats):
-    main = [f for f in feats if f.startswith(("range:target:", "dict", "set:", "list:", "tuple:", "str:", "bytes:", "bytearray:"))]
+    main = [f for f in feats if f.startswith(("range:target:", "dict", "set:", "list:", "tuple:", "str:", "bytes:", "bytearray:", "enumerate-start:"))]
     extra = [f for f in feats if f in ("reversed(range)", "enumerate(range)", "range:typed-bounds", "nested-target", "enumerate(set)")]
     step = [f for f in feats if f.startswith("range:step:")]
     return "+".join(sorted(main) + sorted(extra) + step)
@@ -52,7 +52,7 @@ def _shard(arg):
         has_body = any(f in ("body:break", "body:continue") for f in feats)
         for c, r, g in zip(it["cases"], refs, gots):
             icls = c.get("cls", "?")
-            nt = has_body or icls not in ("plain", "op:none")
+            nt = has_body or icls not in ("plain", "op:none", "start:int")
             part.case([it["src"], c["expr"]], nt, ["input:" + icls, "outcome:" + r[0] + (":" + r[1] if r[0] == "exc" else "")] + ["feat:" + f for f in feats],
                       sample={"src": it["src"], "call": c["expr"], "cpython": diffmod.json_short(r, 300), "compiled": diffmod.json_short(g, 300)})
             if r[0] == "timeout" or g[0] == "timeout":
@@ -71,10 +71,10 @@ def _shard(arg):
 def run(ctx):
     nmods = 1 if ctx.quick else 20
     ctx.pmap(_shard, [(ctx.seed, s, nmods) for s in range(16)])
-    ctx.rule = ("Hypothesis-seeded loop functions: 55% range loops (1-3 arguments, literal or run-time step, 7 target typings, typed/object bounds, "
+    ctx.rule = ("Hypothesis-seeded loop functions: 50% range loops (1-3 arguments, literal or run-time step, 7 target typings, typed/object bounds, "
                 "reversed/enumerate/list wrappers, 4 body variants, else) with ~22 generated (start, stop, step, k) inputs each incl. zero/negative steps, "
-                "empty ranges, C type boundaries and big ints; 45% container loops (dict views x dict kinds, sets, lists, tuples, str, bytes, bytearray; "
-                "reversed/enumerate) with <= 40 (container, iteration j, action) inputs each; 30 functions per module; oracle = same source under CPython "
+                "empty ranges, C type boundaries and big ints; 40% container loops (dict views x dict kinds, sets, lists, tuples, str, bytes, bytearray; "
+                "reversed/enumerate) with <= 40 (container, iteration j, action) inputs each; 10% enumerate(x, start) loops over int / bool / __index__ / non-int start objects x empty and non-empty iterables; 30 functions per module; oracle = same source under CPython "
                 "(iteration LOG, (trip count, final target, bound/len) result, exception type). non-trivial = zero/negative step, empty range, boundary or "
                 "big-int input, break/continue, or a mutation action; distinct by (source, call)")
     ctx.assumptions = ["CPython 3.12 is the reference", "exception message texts are not compared",
